@@ -99,6 +99,22 @@ func c09Giant(c *sim.Ctx) *sim.Violation {
 		c.Count("fault." + tl.clause + ".after-more-than-2^20-user-properties")
 	}
 	c.DistinctStr(fmt.Sprintf("giant/%d/%d", typ, n))
+	// property lengths whose LOW seven-bit groups are zero (16384 = 80 80 01, 32768 =
+	// 80 80 02, 2097152 = 80 80 80 01), cut after each byte of the length field: the
+	// bytes that remain read as a shorter, complete integer of value 0
+	for _, plen := range []int{16384, 32768, 49152, 2097152} {
+		lenField := ref.AppendVarint(nil, uint32(plen))
+		for cut := 1; cut < len(lenField); cut++ {
+			body := append(append([]byte{}, pre...), lenField[:cut]...)
+			frame := append(ref.AppendVarint([]byte{typ<<4 | ref.ReservedFlags(typ)}, uint32(len(body))), body...)
+			o := c09Deliver(c, frame)
+			if o.Kind != "error" {
+				return sim.V(fmt.Sprintf("C09/a/%s/varint/zero-low-groups/accepted", typeName(typ)),
+					"(a) %s whose property length %d (% x) is cut after %d of its %d bytes, remaining length rewritten: frame % x -> %s", typeName(typ), plen, lenField, cut, len(lenField), frame, oneOutcome(o))
+			}
+			c.Count("fault.a.cut-inside-a-property-length-with-zero-low-groups")
+		}
+	}
 	return nil
 }
 
